@@ -190,3 +190,64 @@ def _same_outer_iteration(cfg, loops, a, b):
 
 def where_(t):
     return t.span.short() if getattr(t, 'span', None) else None
+
+
+# ------------------------------------------------------------------------------------ PAN-6
+def pan6_cold_load_failures_are_values(ctx):
+    """A query (or a compaction) that needs a column which is not in memory reads the partition file
+    on the worker thread.  A file that is missing, truncated or fails its checksum must fail that
+    request with an error value: an `unwrap` on the load or decode result kills the worker, leaves the
+    partition's load-in-progress flag set, and every later query on that table waits for ever."""
+    from .common import classify_result_use
+    ctx.rule('PAN-6', 'on the path from Partition::get_cols to the partition file, the results of reading '
+                      'and decoding the file are consumed as error values (?, match, map_err), never by '
+                      'unwrap / expect', floor=2)
+    P = ctx.P
+    root = P.one('mem_store::partition::Partition::get_cols')
+    reach = P.reachable_bodies([root])
+    n = 0
+    for name in sorted(reach):
+        b = P.body(name)
+        if b is None or b.crate != 'locustdb':
+            continue
+        if not name.startswith(('disk_store::storage::', 'scheduler::disk_read_scheduler::', 'mem_store::partition::')):
+            continue
+        du = None
+        for (blk, t) in b.calls():
+            if blk.cleanup:
+                continue
+            c = norm_callee(t.func or '')
+            role = None
+            if re.search(r'BlobWriter>?::load$', c) or c.endswith('BlobWriter::load'):
+                role = 'read'
+            elif c.endswith('PartitionSegment::deserialize'):
+                role = 'decode'
+            elif re.search(r'(ColumnLoader>?|Storage)::load_column$', c) or re.search(r'DiskReadScheduler::get_or_load$', c):
+                role = 'forward'
+            if role is None:
+                continue
+            ty = b.local_type(base_local(t.dest)) or ''
+            if 'result::Result<' not in ty:
+                if role == 'forward':
+                    ctx.violation('PAN-6', '%s|%s|result-type' % (_short(name), c.split('::')[-1]),
+                                  '%s returns %s: a failure to read the file cannot be handed to the caller as '
+                                  'a value' % (c.split('::')[-1], ty[:60]), where_(t))
+                    n += 1
+                continue
+            if du is None:
+                du = DefUse(b)
+            use = classify_result_use(b, du, t)
+            n += 1
+            ok = use['kind'] in ('try', 'match', 'returned')
+            ctx.check('PAN-6', '%s|%s|%s' % (_short(name), role, c.split('::')[-1]), ok,
+                      'result of %s is %s' % (c.split('::')[-1],
+                                              {'try': 'propagated with ?', 'match': 'matched', 'returned': 'returned',
+                                               'unwrap': 'unwrapped: a corrupted or missing partition file panics the '
+                                                         'worker thread, the load-in-progress flag stays set and later '
+                                                         'queries on the table never return'}.get(use['kind'], use['kind'])),
+                      where_(t))
+    ctx.require(n >= 3, 'PAN-6: read / decode / forward sites on the cold-load path not found (%d)' % n)
+
+
+def _short(name):
+    return re.sub(r'^.*?(\w+::\w+)$', r'\1', re.sub(r'<(\w+) as \w+>', r'\1', name))
